@@ -22,6 +22,8 @@ from . import core, dsdlgen, lab, refmodel, valuegen
 from .refmodel import inner
 
 C_KEYS = [f"c|{e}|{a}|{o}" for e in ("any", "little", "big") for a in (0, 1) for o in (0, 1)]
+# --omit-float-serialization-support: the support header drops its float primitives; everything without floats must be unaffected
+C_NOFLOAT_KEYS = [k + "|nofloat" for k in C_KEYS]
 CPP_KEYS = [
     f"cpp|{s}|{e}|{a}|{c}"
     for s in ("c++14", "c++17", "c++20", "c++17-pmr")
@@ -173,13 +175,16 @@ def job_strategy(draw, spec: dict, fixed_universe: typing.Optional[dict] = None)
             targets += draw(st.lists(st.sampled_from(c_pool), min_size=n_c, max_size=n_c, unique=True))
         if n_cpp:
             targets += draw(st.lists(st.sampled_from(cpp_pool), min_size=n_cpp, max_size=n_cpp, unique=True))
+            # universes with at least one float-free type: sometimes also with float support omitted (C or C++)
+            if fixed_universe is None and len(L.float_excluded()) < len(ctypes) and draw(st.integers(0, 2)) == 0:
+                targets.append(draw(st.sampled_from(C_NOFLOAT_KEYS + [k + "|nofloat" for k in cpp_pool])))
             # every other universe is also built for the flavour without a default-constructible allocator (if at least one of
             # its types compiles there)
             if alloc_pool and fixed_universe is None and draw(st.booleans()) and len(L.alloc_excluded()) < len(ctypes):
                 targets.append(draw(st.sampled_from(alloc_pool)))
         if fixed_universe is not None:
             # the anchor is always run on the flavours whose code differs structurally
-            for k in ("cpp|c++17-pmr|any|0|vector", "cpp|c++14|little|1|vector", "cpp|cetl++14-17|any|1|cetl", "c|little|1|0", "c|any|0|0"):
+            for k in ("cpp|c++17-pmr|any|0|vector", "cpp|c++14|little|1|vector", "cpp|cetl++14-17|any|1|cetl", "c|little|1|0", "c|any|0|0", "c|little|0|0|nofloat", "cpp|c++17|any|0|vector|nofloat"):
                 if k.split("|")[0] == "c" and not n_c or k.split("|")[0] == "cpp" and not n_cpp:
                     continue
                 if k not in targets and spec.get("c_filter" if k.startswith("c|") else "cpp_filter", lambda k: True)(k):
@@ -291,7 +296,7 @@ def draw_jobs(ctx: core.Ctx, n: int, spec: dict, seed_offset: int = 0) -> typing
                     seen.add(k)
                     merged["cases"].append(c)
             for t in j["targets"]:
-                if t not in merged["targets"] and len(merged["targets"]) < 10:
+                if t not in merged["targets"] and len(merged["targets"]) < 12:
                     merged["targets"].insert(0, t)
             merged["cap_overrides"] = dict(j.get("cap_overrides", {}), **merged.get("cap_overrides", {}))
         jobs = [merged] + jobs
@@ -365,11 +370,12 @@ def execute(jobs: typing.List[dict], sanitize: bool = True, workers: int = 16, c
         job, L = jobs[ji], labs[ji]
         idx, cmds = [], []
         alloc_flavour = key.startswith("cpp|") and key.split("|")[1] in lab.ALLOC_STDS
-        excluded = L.alloc_excluded() if alloc_flavour else set()
+        excluded = L.skipped(key)
         for ci, c in enumerate(job["cases"]):
-            if alloc_flavour and (c["ti"] in excluded or (c["op"] == "S" and c["dom"] == "invalid")):
-                # types that do not compile in this flavour (known C06 findings); objects holding more elements than the
-                # capacity cannot be built at all: the flavour's container enforces its run-time maximum
+            if c["ti"] in excluded or (alloc_flavour and c["op"] == "S" and c["dom"] == "invalid"):
+                # types that are not part of this key's harness (known C06 findings of the allocator flavour; types with floats
+                # when float support is omitted); objects holding more elements than the capacity cannot be built at all in the
+                # allocator flavour: its container enforces its run-time maximum
                 continue
             cmd = command_for(c, key, reduced=bool(key.startswith("c|") and key.endswith("|1") and job.get("cap_overrides") and cap_overrides_fn))
             if cmd is not None:
